@@ -4,6 +4,7 @@
 package c06
 
 import (
+	"sync/atomic"
 	"encoding/json"
 	"fmt"
 	"strings"
@@ -54,12 +55,17 @@ func cpuTime() time.Duration {
 // seconds. Inline nesting of any depth is not part of the finding.
 func deepNestingCost(c Case) bool { return c.Blocks >= 25 }
 
+// lapStart: process CPU time at which the call that is running now was started (read by the watchdog in check)
+var lapStart int64
+
 func exercise(c Case, obj map[string]any) (classes []string, err error) {
 	last := cpuTime()
+	atomic.StoreInt64(&lapStart, int64(last))
 	lap := func(what string) error {
 		now := cpuTime()
 		d := now - last
 		last = now
+		atomic.StoreInt64(&lapStart, int64(now))
 		if d > timeLimit {
 			return fmt.Errorf("%s took %v of CPU time for a %d-byte document", what, d.Round(time.Millisecond), len(c.Doc))
 		}
@@ -195,14 +201,26 @@ func check(c Case) vrep.Result {
 		cl, err := exercise(c, obj)
 		done <- outcome{cl, err}
 	}()
-	select {
-	case o := <-done:
-		classes = append(classes, o.classes...)
-		if o.err != nil {
-			return vrep.Result{Classes: classes, Err: o.err}
+	hung := time.After(totalLimit)
+	tick := time.NewTicker(250 * time.Millisecond)
+	defer tick.Stop()
+wait:
+	for {
+		select {
+		case o := <-done:
+			classes = append(classes, o.classes...)
+			if o.err != nil {
+				return vrep.Result{Classes: classes, Err: o.err}
+			}
+			break wait
+		case <-tick.C:
+			// the call that is running now has used twice its budget and is still going: no need to wait for its end
+			if d := cpuTime() - time.Duration(atomic.LoadInt64(&lapStart)); d > 2*timeLimit {
+				return vrep.Result{Classes: classes, Err: fmt.Errorf("a single call has used %v of CPU time on a %d-byte document and has not returned (widths %v)", d.Round(time.Second), len(c.Doc), c.Widths)}
+			}
+		case <-hung:
+			return vrep.Result{Classes: classes, Err: fmt.Errorf("rendering a %d-byte document did not finish within %v (widths %v)", len(c.Doc), totalLimit, c.Widths)}
 		}
-	case <-time.After(totalLimit):
-		return vrep.Result{Classes: classes, Err: fmt.Errorf("rendering a %d-byte document did not finish within %v (widths %v)", len(c.Doc), totalLimit, c.Widths)}
 	}
 	if d := time.Since(start); d > 2*time.Second {
 		classes = append(classes, "slow>2s")
